@@ -1,3 +1,263 @@
-import DnsModel.Packet
+/-
+  C12 — Header setters touch only their own bits; getters return what was set.
+  Fields are read off the 16-bit flag word by position (RFC 1035 §4.1.1), with div/mod and
+  `Nat.testBit`, not with the masks the code uses:
+    QR = bit 15, opcode = bits 14..11, AA TC RD RA Z AD CD = bits 10..4, rcode = bits 3..0.
+-/
+import DnsModel.Lemmas.Header
 namespace Dns.C12
+open Dns
+
+/-- the flag word of a header -/
+def word (p : Bytes) : Nat := get16 p DNS_FLAGS_OFFSET
+def opcodeOf (w : Nat) : Nat := w / 2 ^ 11 % 2 ^ 4
+def rcodeOf (w : Nat) : Nat := w % 2 ^ 4
+/-- QR, AA, TC, RD, RA, Z, AD, CD -/
+def isFlagBit (i : Nat) : Prop := i = 15 ∨ (4 ≤ i ∧ i ≤ 10)
+
+theorem flagBit_iff (i : Nat) (hi : i < 16) : flagBit i = true ↔ isFlagBit i := by
+  rcases lt_16_cases hi with rfl|rfl|rfl|rfl|rfl|rfl|rfl|rfl|rfl|rfl|rfl|rfl|rfl|rfl|rfl|rfl <;>
+    simp +decide [flagBit, isFlagBit]
+
+/-- everything of a header except the two bytes of the flag word -/
+def sameExcept (p p' : Bytes) (lo hi : Nat) : Prop :=
+  p'.length = p.length ∧ ∀ j, (j < lo ∨ hi ≤ j) → byteAt p' j = byteAt p j
+
+theorem word_lt (p : Bytes) : word p < 65536 := get16_lt p _
+
+theorem be16_flags {p : Bytes} (hp : 12 ≤ p.length) : be16 p DNS_FLAGS_OFFSET = .ok (word p) :=
+  (be16_ok_of_le (by simp [DNS_FLAGS_OFFSET]; omega)).1
+
+private theorem store_word {p : Bytes} (hp : 12 ≤ p.length) (v : Nat) (hv : v < 65536) :
+    ∃ p', writeAt p DNS_FLAGS_OFFSET (put16 v) = .ok p' ∧ sameExcept p p' 2 4 ∧ word p' = v := by
+  have hfit : DNS_FLAGS_OFFSET + (put16 v).length ≤ p.length := by simp [DNS_FLAGS_OFFSET, put16]; omega
+  refine ⟨_, writeAt_ok hfit, ⟨writeAt_length (writeAt_ok hfit), ?_⟩, get16_writeAt_put16 (writeAt_ok hfit) hv⟩
+  intro j hj
+  exact byteAt_writeAt_put16_other (writeAt_ok hfit) (by simp [DNS_FLAGS_OFFSET]; omega)
+
+/-- **set_flags.** For every header and every argument: only bytes 2–3 change (so id and counts are
+untouched); opcode and rcode are kept; each of the eight flag bits becomes the argument's bit; and
+the upper half of the argument is ignored. -/
+theorem set_flags_frame (p : Bytes) (a : Nat) (hp : 12 ≤ p.length) :
+    ∃ p', hSetFlags p a = .ok p' ∧ sameExcept p p' 2 4 ∧
+      opcodeOf (word p') = opcodeOf (word p) ∧ rcodeOf (word p') = rcodeOf (word p) ∧
+      (∀ i, isFlagBit i → (word p').testBit i = a.testBit i) ∧
+      hSetFlags p (a % 65536) = hSetFlags p a := by
+  have hset : ∀ b, hSetFlags p b = writeAt p DNS_FLAGS_OFFSET (put16 (setFlagsW (word p) b)) := by
+    intro b; simp [hSetFlags, be16_flags hp, setFlagsW]
+  obtain ⟨p', hw, hsame, hword⟩ := store_word hp (setFlagsW (word p) a) (setFlagsW_lt _ _ (word_lt p))
+  refine ⟨p', by rw [hset, hw], hsame, ?_, ?_, ?_, ?_⟩
+  · rw [hword]; unfold opcodeOf
+    apply div_mod_eq_of_bits
+    intro i hi
+    rw [setFlagsW_bits _ _ _ (by omega)]
+    have : flagBit (i + 11) = false := by
+      have h4 : i = 0 ∨ i = 1 ∨ i = 2 ∨ i = 3 := by omega
+      rcases h4 with rfl|rfl|rfl|rfl <;> decide
+    simp [this]
+  · rw [hword]; unfold rcodeOf
+    apply mod_eq_of_bits
+    intro i hi
+    rw [setFlagsW_bits _ _ _ (by omega)]
+    have : flagBit i = false := by
+      have h4 : i = 0 ∨ i = 1 ∨ i = 2 ∨ i = 3 := by omega
+      rcases h4 with rfl|rfl|rfl|rfl <;> decide
+    simp [this]
+  · intro i hi
+    have hi16 : i < 16 := by unfold isFlagBit at hi; omega
+    rw [hword, setFlagsW_bits _ _ _ hi16, (flagBit_iff i hi16).2 hi]; simp
+  · rw [hset, hset]
+    have : setFlagsW (word p) (a % 65536) = setFlagsW (word p) a := by
+      unfold setFlagsW
+      have e : ∀ x : Nat, x &&& 0xffff = x % 65536 := fun x => Nat.and_two_pow_sub_one_eq_mod x 16
+      rw [e, e, Nat.mod_mod]
+    rw [this]
+
+/-- **set_response.** Only the QR bit changes, and it becomes the argument. -/
+theorem set_response_frame (p : Bytes) (b : Bool) (hp : 12 ≤ p.length) :
+    ∃ p', hSetResponse p b = .ok p' ∧ sameExcept p p' 2 4 ∧
+      (word p').testBit 15 = b ∧ ∀ i, i < 15 → (word p').testBit i = (word p).testBit i := by
+  have hset : hSetResponse p b = writeAt p DNS_FLAGS_OFFSET (put16 (setResponseW (word p) b)) := by
+    simp [hSetResponse, be16_flags hp, setResponseW]
+  obtain ⟨p', hw, hsame, hword⟩ := store_word hp (setResponseW (word p) b) (setResponseW_lt _ _ (word_lt p))
+  refine ⟨p', by rw [hset, hw], hsame, ?_, ?_⟩
+  · rw [hword, setResponseW_bits _ _ _ (by decide)]; simp
+  · intro i hi
+    rw [hword, setResponseW_bits _ _ _ (by omega)]
+    have : i ≠ 15 := by omega
+    simp [this]
+
+/-- **set_tid.** Only bytes 0–1 change; the id read back is the argument truncated to 16 bits. -/
+theorem set_tid_frame (p : Bytes) (tid : Nat) (hp : 12 ≤ p.length) :
+    ∃ p', hSetTid p (tid % 65536) = .ok p' ∧ sameExcept p p' 0 2 ∧
+      hTid p' = .ok (tid % 65536) ∧ word p' = word p := by
+  have hfit : DNS_TID_OFFSET + (put16 (tid % 65536)).length ≤ p.length := by simp [DNS_TID_OFFSET, put16]; omega
+  have hw := writeAt_ok hfit
+  refine ⟨_, hw, ⟨writeAt_length hw, ?_⟩, ?_, ?_⟩
+  · intro j hj
+    exact byteAt_writeAt_put16_other hw (by simp [DNS_TID_OFFSET]; omega)
+  · have hl := writeAt_length hw
+    have := (be16_ok_of_le (p := (List.take DNS_TID_OFFSET p ++ put16 (tid % 65536) ++ List.drop (DNS_TID_OFFSET + (put16 (tid % 65536)).length) p)) (i := DNS_TID_OFFSET) (by rw [hl]; simp [DNS_TID_OFFSET]; omega)).1
+    unfold hTid
+    rw [this, get16_writeAt_put16 hw (Nat.mod_lt _ (by decide))]
+  · exact get16_writeAt_other hw (by simp [DNS_TID_OFFSET, DNS_FLAGS_OFFSET])
+
+/-- a one-byte store at offset `k` of a header -/
+private theorem store_byte {p : Bytes} {k : Nat} (hk : k < p.length) (v : Nat) (hv : v < 256) :
+    ∃ p', writeAt p k [UInt8.ofNat v] = .ok p' ∧ p'.length = p.length ∧
+      (∀ j, j ≠ k → byteAt p' j = byteAt p j) ∧ byteAt p' k = some v := by
+  have hfit : k + [UInt8.ofNat v].length ≤ p.length := by simp; omega
+  have hw := writeAt_ok hfit
+  refine ⟨_, hw, writeAt_length hw, ?_, ?_⟩
+  · intro j hj
+    rw [byteAt_writeAt hw j]
+    by_cases h1 : j < k
+    · simp [h1]
+    · have : ¬ j < k + 1 := by omega
+      simp [h1, this]
+  · rw [byteAt_writeAt hw k]
+    simp [byteAt]
+    omega
+
+theorem word_of_bytes {p : Bytes} {hi lo : Nat} (h2 : byteAt p 2 = some hi) (h3 : byteAt p 3 = some lo) :
+    word p = hi * 256 + lo := get16_eq_of_bytes h2 h3
+
+/-- **set_rcode.** Only byte 3 changes; the rcode becomes the argument mod 16, the other twelve bits stay. -/
+theorem set_rcode_frame (p : Bytes) (rc : Nat) (hp : 12 ≤ p.length) :
+    ∃ p', hSetRcode p rc = .ok p' ∧ sameExcept p p' 3 4 ∧
+      rcodeOf (word p') = rc % 16 ∧ ∀ i, 4 ≤ i → (word p').testBit i = (word p).testBit i := by
+  obtain ⟨hi, hhi, _⟩ := byteAt_of_lt (p := p) (i := 2) (by omega)
+  obtain ⟨lo, hlo, hlolt⟩ := byteAt_of_lt (p := p) (i := 3) (by omega)
+  have hset : hSetRcode p rc = writeAt p 3 [UInt8.ofNat (setRcodeB lo rc)] := by
+    simp [hSetRcode, DNS_FLAGS_OFFSET, idx, hlo, setRcodeB]
+  obtain ⟨p', hw, hlen, hoth, hnew⟩ := store_byte (p := p) (k := 3) (by omega) _ (setRcodeB_lt lo rc hlolt)
+  have hw2 : byteAt p' 2 = some hi := by rw [hoth 2 (by decide)]; exact hhi
+  have hwp' := word_of_bytes hw2 hnew
+  have hwp := word_of_bytes hhi hlo
+  refine ⟨p', by rw [hset, hw], ⟨hlen, fun j hj => hoth j (by omega)⟩, ?_, ?_⟩
+  · rw [hwp']; unfold rcodeOf
+    have : rc % 16 = rc % 2 ^ 4 := rfl
+    rw [this]
+    apply mod_eq_of_bits
+    intro i hi4
+    rw [testBit_word _ _ _ (setRcodeB_lt lo rc hlolt)]
+    have h8 : i < 8 := by omega
+    simp [h8, setRcodeB_bits _ _ _ h8, hi4]
+  · intro i hi4
+    rw [hwp', hwp, testBit_word _ _ _ (setRcodeB_lt lo rc hlolt), testBit_word _ _ _ hlolt]
+    by_cases h8 : i < 8
+    · have : ¬ i < 4 := by omega
+      simp [h8, setRcodeB_bits _ _ _ h8, this]
+    · simp [h8]
+
+/-- **set_opcode.** Only byte 2 changes; the opcode becomes the argument mod 16, the other twelve bits stay. -/
+theorem set_opcode_frame (p : Bytes) (op : Nat) (hp : 12 ≤ p.length) :
+    ∃ p', hSetOpcode p op = .ok p' ∧ sameExcept p p' 2 3 ∧
+      opcodeOf (word p') = op % 16 ∧ ∀ i, (i < 11 ∨ 15 ≤ i) → (word p').testBit i = (word p).testBit i := by
+  obtain ⟨hi, hhi, hhilt⟩ := byteAt_of_lt (p := p) (i := 2) (by omega)
+  obtain ⟨lo, hlo, hlolt⟩ := byteAt_of_lt (p := p) (i := 3) (by omega)
+  have hset : hSetOpcode p op = writeAt p 2 [UInt8.ofNat (setOpcodeB hi op)] := by
+    simp [hSetOpcode, DNS_FLAGS_OFFSET, idx, hhi, setOpcodeB]
+  obtain ⟨p', hw, hlen, hoth, hnew⟩ := store_byte (p := p) (k := 2) (by omega) _ (setOpcodeB_lt hi op hhilt)
+  have hw3 : byteAt p' 3 = some lo := by rw [hoth 3 (by decide)]; exact hlo
+  have hwp' := word_of_bytes hnew hw3
+  have hwp := word_of_bytes hhi hlo
+  refine ⟨p', by rw [hset, hw], ⟨hlen, fun j hj => hoth j (by omega)⟩, ?_, ?_⟩
+  · rw [hwp']; unfold opcodeOf
+    have : op % 16 = op / 2 ^ 0 % 2 ^ 4 := by simp
+    rw [this]
+    apply Nat.eq_of_testBit_eq
+    intro i
+    simp only [Nat.testBit_mod_two_pow, Nat.testBit_div_two_pow]
+    by_cases hi4 : i < 4
+    · have h8 : ¬ (i + 11 < 8) := by omega
+      have e : i + 11 - 8 = i + 3 := by omega
+      have hb : i + 3 < 8 := by omega
+      have hc : 3 ≤ i + 3 ∧ i + 3 < 7 := by omega
+      have e2 : i + 3 - 3 = i := by omega
+      rw [testBit_word _ _ _ hlolt]
+      simp [hi4, h8, e, setOpcodeB_bits _ _ _ hb, hc, e2]
+    · simp [hi4]
+  · intro i hrange
+    rw [hwp', hwp, testBit_word _ _ _ hlolt, testBit_word _ _ _ hlolt]
+    by_cases h8 : i < 8
+    · simp [h8]
+    · simp only [h8, if_false]
+      by_cases h16 : i - 8 < 8
+      · have : ¬ (3 ≤ i - 8 ∧ i - 8 < 7) := by omega
+        simp [setOpcodeB_bits _ _ _ h16, this]
+      · have hlt : ∀ x : Nat, x < 256 → x.testBit (i - 8) = false := fun x hx =>
+          Nat.testBit_lt_two_pow (Nat.lt_of_lt_of_le hx (by
+            have : 8 ≤ i - 8 := by omega
+            exact Nat.pow_le_pow_right (by decide : 2 > 0) this))
+        rw [hlt _ (setOpcodeB_lt hi op hhilt), hlt _ hhilt]
+
+/-- **getters.** Each getter returns the field as stored: id, opcode, rcode, QR, and the flag word with
+opcode and rcode masked out and the EDNS flags in the upper half. -/
+theorem getters (p : Bytes) (ext : Option Nat) (hp : 12 ≤ p.length) :
+    hTid p = .ok (get16 p 0) ∧ hOpcode p = .ok (opcodeOf (word p)) ∧ hRcode p = .ok (rcodeOf (word p)) ∧
+      hIsResponse p ext = .ok ((word p).testBit 15) ∧
+      ∃ f, hFlags p ext = .ok f ∧ (∀ i, i < 16 → f.testBit i = (flagBit i && (word p).testBit i)) ∧
+        (∀ i, f.testBit (i + 16) = (ext.getD 0).testBit i) := by
+  obtain ⟨hi, hhi, hhilt⟩ := byteAt_of_lt (p := p) (i := 2) (by omega)
+  obtain ⟨lo, hlo, hlolt⟩ := byteAt_of_lt (p := p) (i := 3) (by omega)
+  have hwp := word_of_bytes hhi hlo
+  have hflags : hFlags p ext = .ok (((ext.getD 0) <<< 16) ||| ((word p &&& 0x87ff) &&& 0xfff0)) := by
+    simp [hFlags, be16_flags hp]
+  have hmask : ∀ i, i < 16 → ((word p &&& 0x87ff) &&& 0xfff0).testBit i = (flagBit i && (word p).testBit i) := by
+    intro i hi16
+    rcases lt_16_cases hi16 with rfl|rfl|rfl|rfl|rfl|rfl|rfl|rfl|rfl|rfl|rfl|rfl|rfl|rfl|rfl|rfl <;>
+      (simp only [flagBit, Nat.testBit_and]; bits_decide (word p) (word p))
+  have hmlt : (word p &&& 0x87ff) &&& 0xfff0 < 2 ^ 16 := Nat.lt_of_le_of_lt Nat.and_le_right (by decide)
+  refine ⟨?_, ?_, ?_, ?_, _, hflags, ?_, ?_⟩
+  · exact (be16_ok_of_le (p := p) (i := 0) (by omega)).1
+  · -- opcode: (hi & 0x78) >> 3
+    simp only [hOpcode, DNS_FLAGS_OFFSET, idx, hhi, Res.bind_ok, Res.pure_eq]
+    congr 1
+    rw [hwp]; unfold opcodeOf
+    apply Nat.eq_of_testBit_eq
+    intro i
+    simp only [Nat.testBit_mod_two_pow, Nat.testBit_div_two_pow, Nat.testBit_shiftRight, Nat.testBit_and]
+    rw [testBit_word _ _ _ hlolt]
+    have h8 : ¬ (i + 11 < 8) := by omega
+    have e : i + 11 - 8 = 3 + i := by omega
+    simp only [h8, if_false, e]
+    by_cases hi4 : i < 4
+    · have h4 : i = 0 ∨ i = 1 ∨ i = 2 ∨ i = 3 := by omega
+      rcases h4 with rfl|rfl|rfl|rfl <;> simp +decide
+    · have : (0x78 : Nat).testBit (3 + i) = false := by
+        apply Nat.testBit_lt_two_pow
+        exact Nat.lt_of_lt_of_le (by decide : (0x78 : Nat) < 2 ^ 7) (Nat.pow_le_pow_right (by decide) (by omega))
+      simp [hi4, this]
+  · -- rcode: lo & 0x0f
+    simp only [hRcode, DNS_FLAGS_OFFSET, idx, hlo, Res.bind_ok, Res.pure_eq]
+    congr 1
+    rw [hwp]; unfold rcodeOf
+    have e : lo &&& 0x0f = lo % 2 ^ 4 := Nat.and_two_pow_sub_one_eq_mod lo 4
+    rw [e]
+    omega
+  · simp only [hIsResponse, hflags, Res.bind_ok, Res.pure_eq]
+    congr 1
+    -- f &&& 0x8000 == 0x8000  ↔  bit 15 of f
+    have hb : ((((ext.getD 0) <<< 16) ||| ((word p &&& 0x87ff) &&& 0xfff0)) &&& DNS_FLAG_QR == DNS_FLAG_QR)
+        = (((ext.getD 0) <<< 16) ||| ((word p &&& 0x87ff) &&& 0xfff0)).testBit 15 := by
+      have : DNS_FLAG_QR = 2 ^ 15 := rfl
+      rw [this, and_two_pow_beq]
+    rw [hb, Nat.testBit_or, Nat.testBit_shiftLeft, hmask 15 (by decide)]
+    simp +decide [flagBit]
+  · intro i hi16
+    rw [Nat.testBit_or, Nat.testBit_shiftLeft, hmask i hi16]
+    have : ¬ (16 ≤ i) := by omega
+    simp [this]
+  · intro i
+    rw [Nat.testBit_or, Nat.testBit_shiftLeft]
+    have hz : ((word p &&& 0x87ff) &&& 0xfff0).testBit (i + 16) = false :=
+      Nat.testBit_lt_two_pow (Nat.lt_of_lt_of_le hmlt (Nat.pow_le_pow_right (by decide) (by omega)))
+    simp [hz]
+
+/-! non-vacuity and the witness of defect D20 (the pinned `set_flags` turned word 0x0001 into 0x0000) -/
+example : hSetFlags [0x12,0x34, 0x00,0x01, 0,1,0,0,0,0,0,0] 0 = .ok [0x12,0x34, 0x00,0x01, 0,1,0,0,0,0,0,0] := by decide
+example : hSetFlags [0x12,0x34, 0x04,0x00, 0,1,0,0,0,0,0,0] 0 = .ok [0x12,0x34, 0x00,0x00, 0,1,0,0,0,0,0,0] := by decide
+example : hSetOpcode [0,0, 0xff,0xff, 0,1,0,0,0,0,0,0] 2 = .ok [0,0, 0x97,0xff, 0,1,0,0,0,0,0,0] := by decide
+
 end Dns.C12
